@@ -340,6 +340,9 @@ class BlockBase:
 
     def norm(self):
         """Get the frobenius norm of the block array."""
+        if not self.blocks:
+            # no stored blocks: the zero array
+            return 0.0
         backend = self.backend
         _sum = ar.get_lib_fn(backend, "sum")
         _abs = ar.get_lib_fn(backend, "abs")
